@@ -81,3 +81,14 @@ def seed_lists(min_size=1, max_size=6):
 
 # "keys nobody holds": arbitrary 32-byte strings as public keys
 ghost_keys = st.binary(min_size=32, max_size=32).map(lambda b: b.hex())
+
+
+def derived_seeds(tag, n):
+    """n distinct 32-byte seeds computed from one small integer (Hypothesis caps the entropy of one example at 8 KiB, so crowds
+    of hundreds or thousands of keys are derived, not drawn)"""
+    return [hashlib.sha256(b"verif crowd %d %d" % (tag, i)).digest() for i in range(n)]
+
+
+def derived_ghosts(tag, n):
+    """n distinct 64-hex strings nobody holds the private key for (as far as the harness is concerned)"""
+    return [hashlib.sha256(b"verif ghost %d %d" % (tag, i)).hexdigest() for i in range(n)]
